@@ -66,7 +66,7 @@ def all_structs():
 
 def jobs(tier, seed):
     st = all_structs()
-    idx = range(len(st)) if tier == 'thorough' else sorted(set([0, 1, 2] + list(range(3, len(st), 5))))
+    idx = range(len(st)) if tier == 'thorough' else sorted(set([0, 1, 2, 5] + list(range(3, len(st), 5))))   # 5 = the single clique (A,B,C): a model without any message
     return [{'si': si, 'seed': seed} for si in idx] + [{'witness': 'F13', 'seed': seed}] + [{'si': 1000 + i, 'seed': seed} for i in range(len(STRUCTS4))] + [{'si': 2000 + i, 'seed': seed} for i in range(len(STRUCTS5))]
 
 
